@@ -358,13 +358,17 @@ class Ctx:
         self.known = load_known_findings(pid)
         self.known_hit = {}
         self.notes = []
+        self.scale = 1              # > 1 in the enlarged search for a failing input
+        self.skip_theorems = False
 
     # ---- sizes
     def size(self, quick, thorough):
-        return thorough if self.tier == "thorough" else quick
+        return thorough if self.tier == "thorough" else quick * self.scale
 
     # ---- theorems
     def check_theorems(self, extra_files=()):
+        if self.skip_theorems:
+            return True
         ok, out = ensure_coq_built(["Props/%s.vo" % self.pid] +
                                    [os.path.relpath(f, COQ)[:-2] + ".vo" for f in extra_files])
         if not ok:
